@@ -307,6 +307,11 @@ class Run(RunBase):
                 sc.assign_obstacles_to_lanelets()
             except Exception:  # noqa
                 pass
+        if cfg.get("pre_moved"):
+            # the map went through translate_rotate before anybody inspects it (arrays produced by a transformation can
+            # have another memory layout than arrays given by the user or read from a file)
+            sc.lanelet_network.translate_rotate(np.array(cfg["pre_moved"][:2], dtype=float), cfg["pre_moved"][2])
+            self.probe("map-was-transformed-before")
         self.probe("source-" + self.source)
         self.sc, self.pps = sc, pps
         self.panel = [np.array(p, dtype=float) for p in universe["panel"]]
@@ -795,7 +800,8 @@ class C18(Property):
                        "render-animation-with-focus-obstacle", "feature:tiny-coordinates",
                        "feature:scenario-id-with-several-prediction-ids", "deep-copy-worked-on-in-place",
                        "feature:closed-course", "feature:sign-or-light-without-position",
-                       "long-lived-writer-used-again", "feature:map-without-lanelets"]
+                       "long-lived-writer-used-again", "feature:map-without-lanelets",
+                       "map-was-transformed-before"]
     assumptions = [
         "the snapshot reads public accessors only and never touches derived data whose computation is itself one of "
         "the side effects hunted (occupancy_set, distance, shapely_object)",
@@ -811,7 +817,9 @@ class C18(Property):
                 "op_kinds": sorted(rng.subset(OP_KINDS, 0.65, at_least=2)),
                 "source": rng.weighted(["direct", "xml", "pb"], [2, 1, 1]), "assignment": rng.chance(0.4),
                 "p_bad": rng.pick([0.0, 0.1, 0.25]), "max_render": rng.pick([0, 1, 2, 3]),
-                "max_export": rng.pick([1, 3, 6]), "p_export_check": rng.pick([0.0, 0.15, 0.4])}
+                "max_export": rng.pick([1, 3, 6]), "p_export_check": rng.pick([0.0, 0.15, 0.4]),
+                "pre_moved": [rng.uniform(-20, 20), rng.uniform(-20, 20), rng.uniform(-3, 3)] if rng.chance(0.25)
+                else None}
 
     def gen_universe(self, rng, cfg):
         ids = gen.IdAlloc(rng, 1, 400, zero=0.1)
